@@ -267,4 +267,23 @@ PROPS = {
                 "topics. Distinct = hash of the whole sequence.",
         "assumptions": COMMON_ASSUME + ["limits are judged with a tolerance: the model only demands acceptance strictly inside the limits and discarding only after a generous bound (two spaced GC triggers)"],
     },
+    "C16": {
+        "module": "core", "pkg": "./checks", "level": "exploration",
+        "jobs": [
+            {"test": "TestC16Sweep", "quick": 1, "thorough": 1},
+            {"test": "TestC16", "quick": 25, "thorough": 1200, "shards_thorough": 8},
+        ],
+        "rule": "Real TLS 1.3 over loopback against net.Listen/net.ServiceConnections with 4 registered ECDSA identities over 3 domains plus a "
+                "registered RSA and Ed25519 identity. A case is a batch of 10..20 raw client connections, each a variant of a valid handshake followed "
+                "by one valid frame with a unique marker: 29 variants (domain other-registered / unregistered / altered after signing; binding "
+                "bit-flipped, truncated, empty, of another connection; identity of another registered peer with the own signature, unregistered, "
+                "other CA, self-signed, malformed PEM, DER garbage, swapped with the binding; timestamp altered; signature bit-flipped, truncated, "
+                "empty, by another key, over another handshake; byte-for-byte replay of a handshake recorded for another connection; RSA / Ed25519 "
+                "identities; every truncation of the encoding; wrong length prefixes; random bytes; empty), interleaved with valid connections. "
+                "TestC16Sweep runs every variant x every peer deterministically. Oracle after an honest barrier round trip plus a settle interval: "
+                "the messages received are exactly those sent over valid handshakes, each once, with the From/Domain of the identity that signed; "
+                "no marker of an invalid variant ever appears. Non-trivial = the batch has a variant that still decodes and differs from a valid "
+                "handshake in one semantic respect. Distinct = hash of the batch. evaluations counts batches (classes count connections).",
+        "assumptions": COMMON_ASSUME + ["crypto/tls, crypto/x509 and the TLS exporter are trusted", "real time: slowness can only hide a leak (checked after a barrier), never invent one"],
+    },
 }
